@@ -12,6 +12,7 @@ mod compressrig;
 mod ctlrig;
 mod sched;
 mod simnet;
+mod hostilerig;
 mod slotrig;
 mod tcprig;
 mod wirerig;
@@ -227,6 +228,17 @@ fn cmd_ctl_runs(m: &HashMap<String, String>) -> i32 {
     0
 }
 
+fn cmd_hostile_runs(m: &HashMap<String, String>) -> i32 {
+    let out = m.get("out").expect("--out");
+    let f = std::fs::File::create(out).expect("create");
+    let mut w = BufWriter::new(f);
+    let errfile = format!("{}.stderr", out);
+    let rc = hostilerig::run_many(&mut w, m.get("family").map(|s| s.as_str()).unwrap_or("cmd"), geti(m, "seed", 1u64), geti(m, "random", 200usize),
+                                  geti(m, "port", 31000u16), &errfile, geti(m, "part", 0usize), geti(m, "parts", 1usize));
+    w.flush().ok();
+    rc
+}
+
 fn cmd_tcp_runs(m: &HashMap<String, String>) -> i32 {
     let out = m.get("out").expect("--out");
     let f = std::fs::File::create(out).expect("create");
@@ -260,6 +272,8 @@ fn main() {
         "migration-runs" => cmd_migration_runs(&m),
         "ctl-runs" => cmd_ctl_runs(&m),
         "tcp-runs" => cmd_tcp_runs(&m),
+        "hostile-runs" => cmd_hostile_runs(&m),
+        "proxy-child" => hostilerig::proxy_child(geti(&m, "port", 31000u16), geti(&m, "threads", 2usize)),
         other => {
             eprintln!("unknown subcommand {}", other);
             2
